@@ -297,6 +297,25 @@ class Session:
                         if x is not None and reg.get(x.name) is not x:
                             return False
             return True
+        if k == "disjoint":
+            # no Type or Feature object of this type system is reachable from any other type system of the session
+            mine_t = {id(t) for t in ts._types.values()}
+            mine_f = {id(f) for t in ts._types.values() for f in list(t._features.values()) + list(t._inherited_features.values())}
+            for j, other in enumerate(self.tss):
+                if other is ts:
+                    continue
+                for t in other._types.values():
+                    if id(t) in mine_t or (t.supertype is not None and id(t.supertype) in mine_t):
+                        return False
+                    if any(id(c) in mine_t for c in t._children.values()):
+                        return False
+                    for f in list(t._features.values()) + list(t._inherited_features.values()):
+                        if id(f) in mine_f:
+                            return False
+                        for x in (f.domainType, f.rangeType, f.elementType):
+                            if x is not None and not isinstance(x, str) and id(x) in mine_t:
+                                return False
+            return True
         raise BadOp(k)
 
     def op_fs_new(self, o):
